@@ -491,14 +491,14 @@ func (c *ctx) reusedDestination(it verifc14.Item, r *verifx.Rng, key string) (bA
 			continue
 		}
 		if _, err := readTL1(o, false, bB); err != nil {
-			h.Viol("tl1-reused-read:"+vr.name+":"+key, "reading B into an object that held A failed: %v (A=%s B=%s)", err, short(bA), short(bB))
+			h.Viol("tl1-reused-read:"+vr.name, key+": "+"reading B into an object that held A failed: %v (A=%s B=%s)", err, short(bA), short(bB))
 			continue
 		}
 		if re, err := writeBare(o); err != nil || !sameBytes(re, bB) {
-			h.Viol("tl1-reused-bytes:"+vr.name+":"+key, "object that read A then B encodes as %s, not as B=%s (A=%s) (%v)", short(re), short(bB), short(bA), err)
+			h.Viol("tl1-reused-bytes:"+vr.name, key+": "+"object that read A then B encodes as %s, not as B=%s (A=%s) (%v)", short(re), short(bB), short(bA), err)
 		}
 		if where := diffVal(reflect.ValueOf(fresh), reflect.ValueOf(o), "v"); where != "" {
-			h.Viol("tl1-reused-state:"+vr.name+":"+key, "object that read A then B differs from one that read only B at %s (A=%s B=%s)", where, short(bA), short(bB))
+			h.Viol("tl1-reused-state:"+vr.name, key+": "+"object that read A then B differs from one that read only B at %s (A=%s B=%s)", where, short(bA), short(bB))
 		}
 	}
 	if it.HasTL2 {
@@ -515,14 +515,14 @@ func (c *ctx) reusedDestination(it verifc14.Item, r *verifx.Rng, key string) (bA
 					continue
 				}
 				if _, err := readTL2(o, tB); err != nil {
-					h.Viol("tl2-reused-read:"+vr.name+":"+key, "reading TL2 B into an object that held A failed: %v", err)
+					h.Viol("tl2-reused-read:"+vr.name, key+": "+"reading TL2 B into an object that held A failed: %v", err)
 					continue
 				}
 				if re, err := writeBare(o); err != nil || !sameBytes(re, bB) {
-					h.Viol("tl2-reused-bytes:"+vr.name+":"+key, "object that read TL2 A then B encodes as %s, not as B=%s (%v)", short(re), short(bB), err)
+					h.Viol("tl2-reused-bytes:"+vr.name, key+": "+"object that read TL2 A then B encodes as %s, not as B=%s (%v)", short(re), short(bB), err)
 				}
 				if where := diffVal(reflect.ValueOf(fresh), reflect.ValueOf(o), "v"); where != "" {
-					h.Viol("tl2-reused-state:"+vr.name+":"+key, "object that read TL2 A then B differs from one that read only B at %s", where)
+					h.Viol("tl2-reused-state:"+vr.name, key+": "+"object that read TL2 A then B differs from one that read only B at %s", where)
 				}
 			}
 		}
@@ -1298,18 +1298,14 @@ func (c *ctx) tl2Case(idx int, r *verifx.Rng, items []verifc14.Item) {
 			o := mk()
 			rest, err := readTL2(o, append(append([]byte{}, t2...), tail...))
 			if err != nil {
-				h.Viol("tl2-body-roundtrip:"+key, "TL2 of %d bytes (planted string %d, header %x) cannot be read back: %v", len(t2), L, t2[:min(9, len(t2))], err)
+				h.Viol("tl2-body-roundtrip", key+": "+"TL2 of %d bytes (planted string %d, header %x) cannot be read back: %v", len(t2), L, t2[:min(9, len(t2))], err)
 				break
 			}
 			if re, err := writeBare(o); err != nil || !sameBytes(re, b) || !sameBytes(rest, tail) {
-				h.Viol("tl2-body-roundtrip:"+key, "TL2 of %d bytes (planted string %d, header %x) reads back as another value or leaves %d instead of %d bytes (%v)", len(t2), L, t2[:min(9, len(t2))], len(rest), len(tail), err)
+				h.Viol("tl2-body-roundtrip", key+": "+"TL2 of %d bytes (planted string %d, header %x) reads back as another value or leaves %d instead of %d bytes (%v)", len(t2), L, t2[:min(9, len(t2))], len(rest), len(tail), err)
 				break
 			}
 		}
-	}
-	if hitTop == 0 && os.Getenv("C14DBG") != "" {
-		t0, _ := writeTL2(v)
-		fmt.Fprintf(os.Stderr, "nohit %s region=%d over=%d nplanters=%d len=%d head=%x\n", key, region, over, len(ps), len(t0), t0[:min(12, len(t0))])
 	}
 	if hitTop > 0 {
 		h.Stat("tl2.body-exactly-at-boundary", int64(hitTop))
